@@ -213,7 +213,7 @@ func primitives(r *rep.Report, maxLen int, every int) int {
 		}()
 		f()
 	}
-	passes := [][]byte{mhOf("m1"), mhOf("m2"), {}, bytes.Repeat([]byte{7}, 200)}
+	passes := [][]byte{mhOf("m1"), mhOf("m2"), {}, bytes.Repeat([]byte{7}, 200), mhOf("m3")}
 	for plen := 0; plen <= maxLen; plen++ {
 		pl := bytes.Repeat([]byte{byte(plen + 1)}, plen)
 		for pi, pass := range passes {
@@ -236,7 +236,45 @@ func primitives(r *rep.Report, maxLen int, every int) int {
 					r.Diverge(rep.Divergence{Key: "wrong-passphrase-accepted", Detail: fmt.Sprintf("payload length %d returned %x", plen, got)})
 				}
 			})
-			n += 4
+			// the wrappers used on the wire: every payload length including zero must round-trip
+			guard("EncryptMetadata", func() {
+				enc, err := dhash.EncryptMetadata(pl, pass)
+				if err != nil {
+					r.Diverge(rep.Divergence{Key: "encrypt-error", Detail: err.Error()})
+					return
+				}
+				if got, err := dhash.DecryptMetadata(enc, pass); err != nil || !bytes.Equal(got, pl) {
+					r.Diverge(rep.Divergence{Key: "round-trip-metadata", Detail: fmt.Sprintf("payload length %d: %v", plen, err)})
+				}
+				evk, err := dhash.EncryptValueKey(pl, pass)
+				if err != nil {
+					r.Diverge(rep.Divergence{Key: "encrypt-error", Detail: err.Error()})
+					return
+				}
+				if got, err := dhash.DecryptValueKey(evk, pass); err != nil || !bytes.Equal(got, pl) {
+					r.Diverge(rep.Divergence{Key: "round-trip-value-key", Detail: fmt.Sprintf("payload length %d: %v", plen, err)})
+				}
+			})
+			// a caller that reuses its passphrase buffer: the result must depend on the buffer's content at call time
+			guard("buffer-reuse", func() {
+				other := passes[(pi+1)%len(passes)]
+				if len(other) != len(pass) || len(pass) == 0 {
+					return
+				}
+				buf := append([]byte(nil), other...)
+				if _, _, err := dhash.EncryptAES(pl, buf); err != nil {
+					return
+				}
+				copy(buf, pass) // same buffer, now holding `pass`
+				n2, c2, err := dhash.EncryptAES(pl, buf)
+				if err != nil || !bytes.Equal(n2, nonce) || !bytes.Equal(c2, ct) {
+					r.Diverge(rep.Divergence{Key: "depends-on-earlier-passphrase", Detail: fmt.Sprintf("payload length %d: encryption under a reused buffer differs from encryption under a fresh copy of the same passphrase", plen)})
+				}
+				if got, err := dhash.DecryptAES(n2, c2, append([]byte(nil), other...)); err == nil {
+					r.Diverge(rep.Divergence{Key: "wrong-passphrase-accepted", Detail: fmt.Sprintf("payload length %d: ciphertext made after the buffer was overwritten decrypts under the earlier passphrase (%x)", plen, got)})
+				}
+			})
+			n += 8
 			if (plen+pi)%every != 0 {
 				continue
 			}
